@@ -89,6 +89,11 @@ def run(ctx):
         specs.append({"cands": ["R", "B"], "schedule": ["R", "main", "B"], "relay_delay_ms": d, "mode": "observe"})
         specs.append({"cands": ["R", "B"], "schedule": ["R", "main", "B"], "relay_delay_ms": d, "mode": "select", "extra": 2})
         specs.append({"cands": ["R", "B", "C"], "schedule": ["R", "main", "C", "B"], "relay_delay_ms": d, "mode": "select", "extra": 1})
+    # a slow direct path next to a relay ("turn:") candidate: relay candidates are tried only after every direct dial has given up, so a
+    # direct handshake that is merely slow (2.6 s) wins and nothing else is ever dialled - one connection at the listener afterwards
+    for d in ([2600] if not thorough else [1200, 2600, 3500]):
+        specs.append({"cands": ["S", "T"], "schedule": [], "relay_delay_ms": d, "mode": "observe", "grace_ms": 2000})
+        specs.append({"cands": ["S", "U"], "schedule": [], "relay_delay_ms": d, "turn_delay_ms": 1200, "mode": "observe", "grace_ms": 2500})
     n_sched = len(specs)
     # ---- 2./3. natural timing
     for _ in range(300 if thorough else 16):
@@ -153,10 +158,10 @@ def run(ctx):
         if o.get("won_updates") != 1:
             ctx.violation("C09:several-winners", f"{o.get('won_updates')} attempts were reported 'won' (candidates {s['cands']}, schedule {s['schedule']})", rep)
         if s["mode"] == "observe":
-            if len(o.get("server_token_conn", [])) != 1:
+            if len(o.get("server_token_conn") or []) != 1:
                 ctx.violation("C09:returned-connection-unusable", "the connection handed to the caller did not carry a stream to the listener", rep)
-            elif (o["server_token_conn"][0] not in o.get("server_open", [])
-                  or len(o.get("server_open", [])) - 1 > len([u for u in o.get("updates", "").split(",")
+            elif (o["server_token_conn"][0] not in (o.get("server_open") or [])
+                  or len(o.get("server_open") or []) - 1 > len([u for u in o.get("updates", "").split(",")
                                                               if u.endswith(":canceled") and u.split(":")[0] not in (o.get("established") or [])])):
                 # (a dial cancelled at the very moment its handshake completes is dropped by quic-go without a CONNECTION_CLOSE: the
                 #  listener keeps that half-open connection until its idle timeout; it is not a connection of the dialing side any more.
